@@ -111,7 +111,10 @@ func (d *PathDecoder) SignatureAtPos(filename string, pos hcl.Pos) (*lang.Functi
 		}
 
 		if activePar >= paramsLen && f.VarParam == nil {
-			return nil // too many arguments passed to the function
+			// too many arguments passed to the function; the signature of
+			// a call further out (visited earlier) does not apply here either
+			signature = nil
+			return nil
 		}
 
 		if activePar >= paramsLen {
